@@ -30,6 +30,8 @@ func checkC11(r *core.Run) {
 	c11Index(r, p)
 	c11Workers(r, p)
 	c11WorkerLocksBalanced(r, p, "R-C11-workers")
+	// what leaves the unspent set for the undo data is a copy: a slice of a record's memory would be read later without the bucket lock (shared with C06)
+	c06UndoRecord(r, p, "R-C11-buckets")
 	c11StaticDecoder(r, p, "R-C11-workers")
 	// the per-transaction digest caches that the parallel verifiers of one transaction share
 	for _, hn := range []struct{ fn, key string }{{"lib/btc.(*Tx).WitnessSigHash", "bip143"}, {"lib/btc.(*Tx).TaprootSigHash", "bip341"}} {
